@@ -66,7 +66,15 @@ def sparseDen [AddCommMonoid R] (ents : List (Nat × Nat × R)) : MatF R :=
 
 /-- `Sum._matmat`: Python `sum(M @ v for M in Ms)` (starts from the integer 0) -/
 def sumMatmat [Zero R] [Add R] (acts : List (MatF R → MatF R)) (X : MatF R) : MatV R :=
-  ⟨(acts.map (fun f => f X)).foldl addM zeroM⟩
+  MatV.of ((acts.map (fun f => f X)).foldl addM zeroM)
+
+/-- `Concatenated._matmat`, axis = 1: `out = 0; for M: out = out + M @ V[i:i+c]; i += c` -/
+def hcatTerms : Nat → List (Nat × (MatF R → MatF R)) → MatF R → List (MatF R)
+  | _, [], _ => []
+  | off, (c, act) :: rest, X => act (rowsFrom off X) :: hcatTerms (off + c) rest X
+
+def hcatMatmat [Zero R] [Add R] (acts : List (Nat × (MatF R → MatF R))) (X : MatF R) : MatV R :=
+  MatV.of ((hcatTerms 0 acts X).foldl addM zeroM)
 
 /-- `KronSum._matmat` loop: `out = 0 * ev; for i, M: out += moveaxis(M @ front, 0, i)` -/
 def kronSumLoop [Zero R] [Add R] : Nat → List (FacAct R) → Tensor R → Tensor R → Tensor R
@@ -77,7 +85,7 @@ def kronSumLoop [Zero R] [Add R] : Nat → List (FacAct R) → Tensor R → Tens
 
 def kronSumMatmat [Zero R] [Add R] (Ms : List (FacAct R)) (b : Nat) (v : MatF R) : MatV R :=
   let ev := reshapeIn (Ms.map (·.c)) b v
-  ⟨reshapeOut (Ms.map (·.r)) (kronSumLoop 0 Ms ev ⟨ev.shape, fun _ => 0⟩)⟩
+  MatV.of (reshapeOut (Ms.map (·.r)) (kronSumLoop 0 Ms ev ⟨ev.shape, fun _ => 0⟩))
 
 /-- multi-index entry of the Kronecker sum: `Σ_t M_t(i_t, j_t) · Π_{s ≠ t} δ(i_s, j_s)` -/
 def kronSumEntry [Semiring R] : List (FacAct R) → List Nat → List Nat → R
@@ -95,7 +103,7 @@ def bdiagBlock (M : FacAct R) (mult k off : Nat) (v : MatF R) : MatV R :=
   let sl := rowsFrom off v                                   -- (mult*c, k)
   let a1 := transposeM (reshape2 (mult * M.c) M.c (transposeM sl))   -- (c, k*mult)
   let elems := M.act (k * mult) a1                           -- (r, k*mult)
-  ⟨transposeM (reshape2 M.r (mult * M.r) (transposeM elems))⟩  -- (mult*r, k)
+  MatV.of (transposeM (reshape2 M.r (mult * M.r) (transposeM elems)))  -- (mult*r, k)
 
 /-- `BlockDiag._matmat` -/
 def bdiagBlocks (k : Nat) : Nat → List (FacAct R × Nat) → MatF R → List (Nat × MatF R)
@@ -104,7 +112,7 @@ def bdiagBlocks (k : Nat) : Nat → List (FacAct R × Nat) → MatF R → List (
       (mult * M.r, (bdiagBlock M mult k off v).f) :: bdiagBlocks k (off + mult * M.c) rest v
 
 def bdiagMatmat [Zero R] (Ms : List (FacAct R × Nat)) (k : Nat) (v : MatF R) : MatV R :=
-  ⟨vstack (bdiagBlocks k 0 Ms v)⟩
+  MatV.of (vstack (bdiagBlocks k 0 Ms v))
 
 /-- blocks repeated by multiplicity, as `BlockDiag.to_dense` builds them -/
 def expandBlocks (Ms : List (FacAct R × Nat)) : List (Nat × Nat × MatF R) :=
@@ -129,11 +137,11 @@ def houseDen [Ring R] [Star R] (v : Nat → R) (beta : R) : MatF R :=
 
 /-- `Sliced._matmat`: zero buffer, scatter rows, product with the parent, gather rows -/
 def slicedMatmat [Zero R] (act : MatF R → MatF R) (rs cs : List Nat) (X : MatF R) : MatV R :=
-  ⟨gatherRows rs (act (scatterRows cs X))⟩
+  MatV.of (gatherRows rs (act (scatterRows cs X)))
 
 /-- `Sliced._rmatmat` (the same on the transposed side) -/
 def slicedRmatmat [Zero R] (ract : MatF R → MatF R) (rs cs : List Nat) (X : MatF R) : MatV R :=
-  ⟨transposeM (gatherRows cs (transposeM (ract (transposeM (scatterRows rs (transposeM X))))))⟩
+  MatV.of (transposeM (gatherRows cs (transposeM (ract (transposeM (scatterRows rs (transposeM X)))))))
 
 def slicedDen (A : MatF R) (rs cs : List Nat) : MatF R :=
   fun i j => A (rs.getD i 0) (cs.getD j 0)
